@@ -6,6 +6,19 @@ COMMON_ASSUME = [
 ]
 
 PROPS = {
+    "C03": dict(
+        title="NTT120 transform is an exact, invertible negacyclic transform on all 64-bit data",
+        module="SpqProofs.Properties.C03",
+        gen=["q120ntt"],
+        streams=dict(quick=[("qn_tables", "plain"), ("qn_ntt", "plain"), ("md_ntt", "plain")],
+                     thorough=[("qn_tables", "plain"), ("qn_ntt", "plain"), ("qn_stages", "plain"), ("md_ntt", "plain")]),
+        proved="mixed level-by-level/block schedule = plain level schedule for every split; under a kernel-checked no-wrap certificate on the metadata extracted from the live precomputation, every output lane equals the exact transform in ZMod q_j for every 64-bit input, n = 2^k <= 2^16; intt(ntt x) = x mod q_j; linearity; output j = evaluation at w^(2 brev(j)+1); pointwise products invert to the negacyclic convolution",
+        not_proved="module-level dft/idft (int64 -> residues -> CRT lift) is covered by the md_ntt stream with an exact int64/int128 oracle and by the C10 conversion theorems, not yet composed into one theorem; the 4 AVX2 lanes are modelled as 4 independent scalar lanes (tied by the streams)",
+        level_text="Lean 4 theorems (refinement to the exact ZMod transform, round trip, evaluation and convolution) over a model whose per-level metadata is regenerated from the live precomputation every run; raw-lane bit-exact correspondence for n = 1..65536 on worst-case lane patterns",
+        design_ref="DESIGN.md §5 C03",
+        technique="Lean 4 proof (level induction, ZMod refinement) + kernel-decided certificate on regenerated metadata + correspondence",
+        assumptions=COMMON_ASSUME + ["real powomega tables = model tables (qn_tables stream, exhaustive per n)", "Gen/Q120Meta re-extracted every run"],
+    ),
     "C05": dict(
         title="Base-2^k normalization yields the unique balanced digit expansion",
         module="SpqProofs.Properties.C05",
@@ -81,6 +94,27 @@ PROPS = {
         not_proved="the inverse DFT in place and pointwise products with r==a are float kernels: covered by the module-level streams (bit-exact), theorem staged with the FFT model",
         level_text="Lean 4 theorems: aliased call = separate-buffer call on identical data for every shape; in-place kernels tied to the real code by the exhaustive probe stream",
         design_ref="DESIGN.md §5 C13",
+    ),
+    "C17": dict(
+        title="Block layouts and complex-vector kernels are faithful and mutually inverse",
+        level_text="Lean 4 theorems: layout maps cell by cell with frame for every m/blk/rows/stride, exact-arithmetic equality of every kernel (ref, avx2/fma, sse, avx512 orders) with the complex definition for every length, standard-model error bounds for the accumulating products; bit-exact correspondence on all variants",
+        design_ref="DESIGN.md §5 C17",
+        module="SpqProofs.Properties.C17",
+        variants={"plain": None},
+        streams=dict(quick=[("r4_layout", "plain"), ("r4_arith", "plain")],
+                     thorough=[("r4_layout", "plain"), ("r4_arith", "plain")]),
+        proved="layout: extract/save/from_cplx/to_cplx cell-by-cell values + frame for every m, blk < m/4, row count incl. 0, stride; "
+               "save/extract mutually inverse; to_cplx(from_cplx x) = x on all 2m doubles; AVX/FMA layout variants equal to the reference ones. "
+               "arithmetic (exact, any commutative ring): reim4 add/mul/add_mul, 1- and 2-column dot products (ref and avx2 operation orders), "
+               "windowed convolution (= sum over all index pairs i+j=k, every window incl. empty), fftvec mul/addmul on reim4, reim and cplx layouts "
+               "(ref, fma, sse, avx512) equal the complex-arithmetic definition for every length incl. 0; SIMD = reference in exact arithmetic. "
+               "rounding (standard model, unit roundoff u): 1-column dot product in reference and AVX2 order and the convolution window are within "
+               "((1+u)^(n+2)-1)*sum(|a c|+|b d|) of the exact sums",
+        not_proved="that binary64 (Spq.F64) satisfies the standard model on the inputs at hand (no overflow/underflow) is not proved: the rounding "
+                   "bound is tied to the real code by the r4_arith oracle ((n+2)*2^-52*sum|u||v| against long double) and the bit-exact model; "
+                   "no error theorem for the 2-column products and the pointwise fftvec kernels (2-3 roundings each); "
+                   "partial overlap of source and destination is not modelled",
+        assumptions=COMMON_ASSUME,
     ),
     "C18": dict(
         title="Read-only operands are never modified",
